@@ -272,7 +272,27 @@ def _is_iter_excluded(d, strict):
     return type(d) is str or isinstance(d, collections.abc.Mapping)
 
 
+class OneShotView:
+    """a one-shot iterator materialised for the reference: still recognisable as an iterator, but re-iterable"""
+
+    def __init__(self, items):
+        self.items = items
+
+    def __iter__(self):
+        return iter(self.items)
+
+    def __next__(self):   # marks the object as an iterator for the rules that ask
+        raise StopIteration
+
+
+def _view(d):
+    if hasattr(d, "__next__") and not isinstance(d, OneShotView):
+        return OneShotView(list(d))
+    return d
+
+
 def accepts(ts, d, strict):  # noqa: C901, PLR0911, PLR0912
+    d = _view(d)
     ts = unwrap(ts)
     h = ts[0]
     if h in ITER_IMPL:
@@ -341,6 +361,7 @@ def _all(verdicts):
 
 def matches(ts, d, strict, result):  # noqa: C901, PLR0911, PLR0912
     """Given that d may be accepted: is `result` one of the values the rules allow?"""
+    d = _view(d)
     ts = unwrap(ts)
     h = ts[0]
     if h in ITER_IMPL:
@@ -395,7 +416,7 @@ def matches(ts, d, strict, result):  # noqa: C901, PLR0911, PLR0912
     if verdict == UNSPEC:
         return True
     if h in ("Any", "object"):
-        return (result is d or (hasattr(d, "__next__") and type(result) is type(d))
+        return (result is d or (hasattr(d, "__next__") and hasattr(result, "__next__"))
                 or (type(d) in _IMMUTABLE and same(result, d)))
     if h == "Literal":
         return any(same(result, a) for a in val)
@@ -412,6 +433,7 @@ def matches(ts, d, strict, result):  # noqa: C901, PLR0911, PLR0912
 
 
 def has_overlap(ts, d, strict):  # noqa: C901, PLR0911
+    d = _view(d)
     ts = unwrap(ts)
     h = ts[0]
     if h == "Union":
